@@ -204,6 +204,33 @@ def run(ctx):
                func=f"{BASE}._next_message_id", file=nm.module.rel, node=node, detail={"returns": show(t), "counter": show(rst.env.get(cnt_key[0])) if cnt_key else None},
                fail="the message id does not advance by exactly one modulo 256 (step, mask or counter store changed)")
         ctx.count("id_returns")
+    # one frame - one message id - per command sent: on the way from the public operations to LAN.send a command object is serialised exactly
+    # once, by Device._send_command (a second tobytes() for a log line or a retry consumes an id: the next command skips one)
+    dev = prog.cls("msmart.base_device.Device")
+    fam = [dev] + [k for k in prog.subclasses(dev) if k is not dev]
+    ser_sites = []
+    for k in fam:
+        for m in list(k.methods.values()):
+            if len(m.params) < 1:
+                continue
+            names = set()
+            if m.name.startswith("_send_command") and len(m.params) > 1:
+                names.add(m.params[1])
+            for n in ast.walk(m.node):
+                if isinstance(n, ast.Call) and isinstance(n.func, ast.Attribute) and n.func.attr.startswith("_send_command") and n.args and isinstance(n.args[0], ast.Name):
+                    names.add(n.args[0].id)
+            for n in ast.walk(m.node):
+                if isinstance(n, ast.Call) and isinstance(n.func, ast.Attribute) and n.func.attr == "tobytes" and not n.args and isinstance(n.func.value, ast.Name) \
+                        and n.func.value.id in names:
+                    ser_sites.append((m, n))
+    ctx.count("serialisation_sites", len(ser_sites))
+    extra = [(m, n) for m, n in ser_sites if m.qual != "msmart.base_device.Device._send_command"] or ser_sites[1:]
+    ctx.ob("C12.d", "msmart.base_device.Device._send_command", len(ser_sites) >= 1 and not extra,
+           "a command handed to the send chain is serialised once (one message id per command on the wire)",
+           func=extra[0][0].qual if extra else "msmart.base_device.Device._send_command", file=(extra[0][0] if extra else dev.methods["_send_command"]).module.rel,
+           node=extra[0][1] if extra else None, construct="command.tobytes()",
+           fail=(f"{extra[0][0].qual} serialises the command again (`{norm(extra[0][1])}`): every tobytes() takes the next message id, so the ids seen by the "
+                 "device no longer advance by one") if extra else "no serialisation of the command on the way to LAN.send was found")
     # ---------------------------------------------------------------- C12.c all command classes
     base = prog.cls(BASE)
     subs = [c for c in prog.subclasses(base) if c is not base]
